@@ -110,3 +110,9 @@ impl TcpChannelTask {
 //@|        options.max_timeouts is None ==> r.1.tcp_task().client_loop.timeout_counter.limit() is None,
 //@|        options.max_timeouts is Some ==> r.1.tcp_task().client_loop.timeout_counter.limit() == Some(crate::nz_value(options.max_timeouts->Some_0)),
 //@|        r.1.tcp_task().client_loop.rx.0.chan == r.0.tx.chan,
+// [C18,C20] the spawning variant: the task handed to the runtime is the one built from exactly the arguments
+//@fn rodbus/src/tcp/client.rs | spawn_tcp_channel | tags=C12,C13,C18,C20
+//@|    requires listener.log().len() == 0,      // (the ghost log of a listener that has not been used yet)
+//@exit 0| assert(task.is_tcp_task() && task.tcp_task().connection_handler is Tcp && task.tcp_task().client_loop.decode == client_options.decode_level
+//@exit 0|     && task.tcp_task().states() == listener.log() && task.tcp_task().client_loop.rx.0.chan == handle.tx.chan
+//@exit 0|     && (client_options.max_timeouts is None ==> task.tcp_task().client_loop.timeout_counter.limit() is None));
